@@ -31,6 +31,8 @@ def check_c13(ctx):
     q = ctx.tier == "quick"
     nmax, pmax, bmax = (24, 8, 3) if q else (60, 12, 5)
     cfgs = boxes.twolevel(nmax, pmax, bmax, passes=2)
+    cfgs += [mkcfg("TwoLevel", N=300, passes=2, period=60, ram=2, st=0), mkcfg("TwoLevel", N=263, passes=1, period=7, ram=1, st=1),
+             mkcfg("TwoLevel", N=131, passes=2, period=33, ram=3, st=0, traj=1)]
     # TLC-guided selection (see optim.planner_scan): blocks whose first advance fails the Bellman
     # equation of the binomial recurrence are added as one-block configurations
     from . import optim
@@ -94,6 +96,10 @@ def check_c19(ctx):
     for n in range(1, nmax + 1):
         for cm in cms:
             for c in C19_COSTS:
+                cfgs.append(mkcfg("PeriodicDiskRevolve", max_n=n, ram=cm, **boxes.cv(c)))
+    for c in ((1, 1, 250, 250), (1, 1, 5000, 5000), (1, 1, 40, 15), (2, 1, 300, 100)):
+        for cm in (1, 2):
+            for n in (150, 300):
                 cfgs.append(mkcfg("PeriodicDiskRevolve", max_n=n, ram=cm, **boxes.cv(c)))
     traces = record.record_many(cfgs)
     verdicts = fw.validate(ctx, traces, module="TracePeriodic")
